@@ -2,7 +2,7 @@
 job (NDJSON).  stdin: {"jobs": [...]}.
 
 job = {mode "trim"|"crop", H, W,
-       data   H x W integer codes (NaN = -99): trim - the raster, crop - the zones raster
+       data   H x W integer codes (NaN = -99, +inf = -97, -inf = -96): trim - the raster, crop - the zones raster
        dtype  numpy dtype of that raster ("int64", "int32", "float64", "float32")
        scale  real value of code v is v*scale (default 1)
        list   integer codes of trim's `values` / crop's `zones_ids`; null = call trim with its default
@@ -23,6 +23,8 @@ import xrspatial  # noqa
 Z = sys.modules["xrspatial.zonal"]
 
 NAN = -99
+PINF = -97
+NINF = -96
 BAD = -98
 
 
@@ -47,13 +49,15 @@ def decode(codes, dtype, scale, table=None):
         flat = [table[c] for row in codes for c in row]
         return np.array(flat, dtype=dtype).reshape(len(codes), len(codes[0]))
     a = np.array(codes, dtype=np.float64)
-    nan = a == NAN
+    nan, pinf, ninf = a == NAN, a == PINF, a == NINF
     a = a * scale
     if np.dtype(dtype).kind == "f":
         a[nan] = np.nan
+        a[pinf] = np.inf
+        a[ninf] = -np.inf
         return a.astype(dtype)
-    if nan.any():
-        raise ValueError("NaN in an integer raster")
+    if nan.any() or pinf.any() or ninf.any():
+        raise ValueError("NaN / inf in an integer raster")
     return np.round(a).astype(dtype)
 
 
@@ -67,6 +71,8 @@ def encode(arr, scale, table=None):
         for v in row:
             if np.isnan(v):
                 o.append(NAN)
+            elif np.isinf(v):
+                o.append(PINF if v > 0 else NINF)
             else:
                 q = v / scale
                 o.append(int(round(q)) if abs(q - round(q)) < 1e-9 and abs(q) < 1e6 else BAD)
@@ -77,6 +83,8 @@ def encode(arr, scale, table=None):
 def pyval(code, scale, as_float):
     if code == NAN:
         return float("nan")
+    if code in (PINF, NINF):
+        return float("inf") if code == PINF else float("-inf")
     v = code * scale
     if as_float or v != int(v):
         return float(v)
